@@ -132,9 +132,13 @@ example : (runUntilCrash exFmt (mainTrace prog) 0 none (fun _ => 0) (init exOrig
 /-- the main trace is not empty and contains a write and a rename onto `path` -/
 example : Op.write ∈ mainOps prog ∧ Op.rename .tmp .path ∈ mainOps prog := by decide
 
-/-- killed inside the write (3 of 7 bytes transferred): the temp file is partial, `path` intact -/
+/-- killed inside the write (3 of 7 bytes transferred): the temp file is partial, `path` intact
+(on a literal copy of today's main trace, so that a harmless reordering of the source does not
+invalidate this illustration) -/
 example :
-    let s := runUntilCrash exFmt (mainTrace prog) 2 (some 3) (fun _ => 0) (init exOrig 0o644 none 0o022)
+    let t : List Ev := [.ok .stat, .ok (.createTemp 0o600), .ok .write, .ok (.chmodFd .origPerm),
+                        .ok .close, .ok (.rename .tmp .path)]
+    let s := runUntilCrash exFmt t 2 (some 3) (fun _ => 0) (init exOrig 0o644 none 0o022)
     s.path = some ⟨exOrig, 0o644⟩ ∧ s.tmp = some ⟨[0x78, 0x20, 0x3a], 0o600⟩ := by decide
 
 /-- the program has error paths (more than one trace) and `SafeSeq` is not trivially true -/
